@@ -1048,27 +1048,60 @@ def power(it, base, exp):
 # =============================================================================================
 # random streams
 
+PAIR = None
+
+
+def pos_pair(a, b):
+    """injective pairing of (epoch, element index) used for draws made inside a comprehension"""
+    return uf('PosPair', z3.IntSort(), z3.IntSort(), z3.IntSort())(to_num(a), to_num(b))
+
+
+DRAW_AXIOMS = {
+    # family -> (description, builder(term) -> z3 Bool) assumed for every draw of that family
+    'exponential': ("a draw from the exponential sampler is positive and finite", lambda d, inf: z3.And(d > 0, d < inf)),
+    'poisson': ("a draw from the Poisson sampler is a non-negative integer", lambda d, inf: z3.And(d >= 0, z3.IsInt(d))),
+    'gamma': ("a gamma draw is positive", lambda d, inf: d > 0),
+    'chisquare': ("a chi-square draw is positive", lambda d, inf: d > 0),
+}
+
+
 class SRandomState(Model):
-    """np.random.RandomState: a stream identified by `stream` (z3 Int term); each draw consumes
-    one position.  Draw(stream, pos, family, i, params...) is uninterpreted."""
+    """np.random.RandomState: a stream identified by `stream` (z3 Int term).  Draw_<family>(stream,
+    position, i, params...) is uninterpreted; positions are distinct for distinct draws (a global
+    epoch counter; inside a comprehension over a symbolic-length sequence the position is the
+    pair (epoch of the comprehension, element index))."""
     tags = frozenset({'RandomState'})
 
     def __init__(self, stream, label):
         self.stream = stream
-        self.pos = 0
         self.label = label
 
     def draw(self, it, family, params, size):
         f = uf('Draw_' + family, *([z3.IntSort()] * 3 + [z3.RealSort()] * len(params) + [z3.RealSort()]))
-        pos = self.pos
-        self.pos = self.pos + 1
-        it.rng_log.append((self.label, family, tuple(params), size, pos))
+        lazy = getattr(it, 'lazy_index', None)
+        if lazy is not None:
+            pos = pos_pair(lazy[0], lazy[1])
+        else:
+            pos = to_num(it.rng_epoch)
+            it.rng_epoch = it.rng_epoch + 1
+        entry = (self.label, family)
+        if entry not in it.rng_log:
+            it.rng_log.append(entry)
         ps = [to_real(p) for p in params]
         if any(p is None for p in ps):
             raise Unsupported("random draw with non-scalar parameters")
+        if family in DRAW_AXIOMS:
+            text, ax = DRAW_AXIOMS[family]
+            it.ctx.note_trusted("numpy sampler %s: %s" % (family, text))
+            key = ('drawax', family, len(ps))
+            if key not in it.ctx.covers:
+                it.ctx.covers.add(key)
+                vs = [z3.Int('ds!'), z3.Int('dp!'), z3.Int('di!')] + [z3.Real('dq%d!' % i) for i in range(len(ps))]
+                from .lib_numpy import INF
+                it.ctx.assume(z3.ForAll(vs, ax(f(*vs), INF), patterns=[f(*vs)]))
         if size is None:
-            return f(self.stream, to_num(pos), z3.IntVal(0), *ps)
-        return SArr((size,), lambda o: f(self.stream, to_num(pos), o[0], *ps), 'real')
+            return f(self.stream, pos, z3.IntVal(0), *ps)
+        return SArr((size,), lambda o: f(self.stream, pos, o[0], *ps), 'real')
 
     def py_getattr(self, it, name):
         fam = {'exponential': ('exponential', ['scale']), 'gamma': ('gamma', ['shape', 'scale']),
@@ -1099,9 +1132,7 @@ class SRandomState(Model):
                     raise PyRaise(ExcVal('TypeError', ("unexpected arguments to %s: %r %r" % (name, a, k),)))
                 return self.draw(it_, family, vals, size)
             return Builtin('RandomState.' + name, sampler,
-                           "numpy sampler %s: result is a function of (generator state, parameters, size); advances that generator only" % name)
-        if name in ('get_state', 'set_state', 'seed'):
-            raise Unsupported("RandomState.%s" % name)
+                           "numpy sampler %s: result is a function of (generator, position in its stream, parameters, size); touches that generator only" % name)
         raise Unsupported("RandomState.%s" % name)
 
 
@@ -1127,6 +1158,15 @@ class Lib(object):
             g = a.get
             return SArr(a.shape, lambda o: z3.Not(g(o)), 'bool')
         raise Unsupported("logical not of %r" % (a,))
+
+    def repeat_list(self, it, c, n):
+        """[c] * n for symbolic n"""
+        it.ctx.assume(n >= 0) if False else None
+        zc = to_num(c)
+        if zc is None:
+            raise Unsupported("[%r] * n" % (c,))
+        ln = z3.If(n >= 0, n, 0)
+        return SMutList(z3.simplify(ln), z3.K(z3.IntSort(), to_real(zc)))
 
     def str_concat(self, it, a, b):
         return "<str>"
